@@ -7,9 +7,9 @@ use super::*;
 // (statics have distinctive non-zero initial values and are explicitly initialised: Kani 0.68 can alias a
 // constant allocation with a static whose initial bytes are identical, see c16_io.rs)
 static mut QP: *const WorkStealQueue<u8> = std::ptr::without_provenance(0x31);
-static mut B_DONE: bool = false;
+static mut B_DONE: bool = true; // (initial value is NOT the reset value on purpose, see the note above)
 static mut B_KIND: u8 = 0x32;
-static mut B_POPPED: Option<u8> = None;
+static mut B_POPPED: Option<u8> = Some(0x37);
 
 fn thread_b() {
     unsafe {
